@@ -30,14 +30,14 @@ def mc_module(diam_pairs):
         '=============================================================================', ''])
 
 
-def cfg(stride, kts):
+def cfg(stride, kts, psigs):
     return '\n'.join([
         'CONSTANTS L = %d' % LEN, 'Stride = %d' % stride, 'KTs = {%s}' % ', '.join(str(k) for k in kts),
-        'DiamPairs <- MC_DiamPairs', 'INIT MCXInit', 'NEXT XNext', 'VIEW XView', 'CHECK_DEADLOCK FALSE',
+        'PotSigmas = {%s}' % ', '.join('"%s"' % x for x in psigs), 'DiamPairs <- MC_DiamPairs', 'INIT MCXInit', 'NEXT XNext', 'VIEW XView', 'CHECK_DEADLOCK FALSE',
         'INVARIANTS CoreValueHolds CoreExtent', 'ACTION_CONSTRAINT XEdge', ''])
 
 
-def build(c, dr, rng):
+def build(c, dr, rng, label):
     """the real System of a configuration; everything the spec leaves open (densities, omegas, potential
     parameters) is drawn from the seeded generator - the statement quantifies over all of it"""
     import pyPRISM
@@ -59,6 +59,8 @@ def build(c, dr, rng):
             U = pyPRISM.potential.HardCoreLennardJones(epsilon=float(rng.uniform(0.05, 1.0)))
         else:
             U = pyPRISM.potential.LennardJones(epsilon=float(rng.uniform(0.05, 0.6)))
+        if c.get('psig', 'default') != 'default':
+            U.sigma = label['potsigma2'][name] * half          # explicitly given contact distance of the potential
         s.potential[a, b] = U
         with warnings.catch_warnings():
             warnings.simplefilter('ignore')
@@ -100,7 +102,7 @@ def trial(fam, P, rng):
 
 
 def check_cost(ctx, c, label, dr, rng, fails):
-    s = build(c, dr, rng)
+    s = build(c, dr, rng, label)
     with warnings.catch_warnings():
         warnings.simplefilter('ignore')
         P = s.createPRISM()
@@ -117,7 +119,7 @@ def check_cost(ctx, c, label, dr, rng, fails):
         if not label['hard'][name]:
             continue
         n = label['ncore'][name]
-        sigma = float(P.sys.diameter[a, b])
+        sigma = label['sigma2'][name] * dr / 2.0
         clo = P.sys.closure[a, b]
         val = np.asarray(clo.value, dtype=float)
         gin = np.asarray(P.GammaIn[a, b], dtype=float)
@@ -141,7 +143,7 @@ def check_cost(ctx, c, label, dr, rng, fails):
 
 
 def check_solved(ctx, c, label, dr, rng, fails):
-    s = build(c, dr, rng)
+    s = build(c, dr, rng, label)
     with warnings.catch_warnings():
         warnings.simplefilter('ignore')
         P = s.createPRISM()
@@ -163,7 +165,7 @@ def check_solved(ctx, c, label, dr, rng, fails):
         if not label['hard'][name]:
             continue
         n = label['ncore'][name]
-        sigma = float(P.sys.diameter[a, b])
+        sigma = label['sigma2'][name] * dr / 2.0
         idx = np.arange(n)
         idx = idx[~((np.abs(r[idx] - sigma) < 1e-6) & (r[idx] != sigma))]
         gv = np.asarray(g[a, b], dtype=float)[idx]
@@ -195,8 +197,9 @@ def run(ctx):
                         'solved objects: unconverged solves skipped and counted']
     diam = [(16, 16), (8, 10)] if not thorough else [(16, 16), (16, 24), (8, 10), (12, 20)]
     kts = [1] if not thorough else [1, 2]
-    stride = 61 if not thorough else 23
-    res = run_tlc('MC_HardCoreRun', cfg(stride, kts), ctx.tmp, extra_modules={'MC_HardCoreRun': mc_module(diam)}, workers=8, seed=ctx.seed)
+    stride = 89 if not thorough else 47
+    psigs = ['default', 'smaller'] if not thorough else ['default', 'smaller', 'larger']
+    res = run_tlc('MC_HardCoreRun', cfg(stride, kts, psigs), ctx.tmp, extra_modules={'MC_HardCoreRun': mc_module(diam)}, workers=8, seed=ctx.seed, coverage=False)
     require_clean(res, 'HardCore')
     ctx.add_tlc('HardCore configurations', res, exhaustive=True)
     edges = res.records.get('EDGE', [])
